@@ -37,16 +37,16 @@ class RKAdaptiveStepSolver(object):
 
     def setup(self, fcn, ts, y0, params):
         # flatten the y0, will be restore at the end of .solve()
-        self.yshape = y0.shape
+        self.yshape = yshape = y0.shape  # the closures below must not capture self (reference cycle)
         self.y0 = y0.reshape(-1)
 
         direction = ts[1] - ts[0]
         if direction < 0:
             self.ts = -ts
-            self.func = lambda t, y: -fcn(-t, y.reshape(self.yshape), *params).reshape(-1)
+            self.func = lambda t, y: -fcn(-t, y.reshape(yshape), *params).reshape(-1)
         else:
             self.ts = ts
-            self.func = lambda t, y: fcn(t, y.reshape(self.yshape), *params).reshape(-1)
+            self.func = lambda t, y: fcn(t, y.reshape(yshape), *params).reshape(-1)
         self.dtype = y0.dtype
         self.device = y0.device
         n = torch.numel(y0)
